@@ -4,7 +4,7 @@
 (* authoriser (current holder, former holder, holder of the other role, the          *)
 (* beneficiary named in the arguments, a stranger) and nobody, over every history     *)
 (* of role transfers among three addresses (incl. transfer to self and back).         *)
-EXTENDS Gateway, Json, SequencesExt
+EXTENDS Gateway, Json, SequencesExt, AuthShapes
 CONSTANT Op0    \* the operator named at construction: "op0", or "owner0" (the SAME address as the owner)
 VARIABLE st
 
@@ -21,6 +21,17 @@ Full(s) == [set |-> s, sigs |-> [i \in 1..Len(Sets[s].keys) |-> "Valid"]]
 Acts(s) ==
     {[name |-> "TransferOwnership", new |-> n, auth |-> au] : n \in {"owner0", "bob"}, au \in Auths}
     \cup {[name |-> "TransferOperatorship", new |-> n, auth |-> au] : n \in {"op0", "bob", "owner0"}, au \in Auths}
+    \* the migration window of the Upgradable interface is open (hidden from this module): every role check must
+    \* behave exactly as when it is closed
+    \cup {[name |-> "HookOpenWindow"]}
+    \* an entry that names the entry point but keeps only the arguments `keepArgs` (what require_auth_for_args with a subset of the
+    \* arguments would ask for) is not an authorisation of this exact call
+    \cup {[name |-> "TransferOperatorship", new |-> "bob", auth |-> {}, scopedAuth |-> {s.operator}, keepArgs |-> <<>>],
+          [name |-> "TransferOwnership", new |-> "bob", auth |-> {}, scopedAuth |-> {s.owner}, keepArgs |-> <<>>]}
+    \cup (IF s.epoch < 3
+          THEN {[name |-> "RotateSigners", new |-> Order[s.epoch + 1], proof |-> Full(s.hashByEpoch[s.epoch]), bypass |-> TRUE,
+                 auth |-> {}, scopedAuth |-> {s.operator}, keepArgs |-> ks] : ks \in ProperKeeps(3)}
+          ELSE {})
     \cup (IF s.epoch < 3
           THEN {[name |-> "RotateSigners", new |-> Order[s.epoch + 1], proof |-> Full(s.hashByEpoch[e]), bypass |-> TRUE, auth |-> au] :
                     e \in {x \in 1..s.epoch : s.epoch - x <= Retention}, au \in Auths}
@@ -30,7 +41,7 @@ InitState == [Install(Blank("owner0", Op0, 0), "a") EXCEPT !.deployed = TRUE]
 Init == st = InitState
 Next == \E a \in Acts(st) : st' = Apply(st, a).post
 
-Step(P(_, _, _)) == \A a \in Acts(st) : P(st, a, Apply(st, a))
+Step(P(_, _, _)) == \A a \in Acts(st) : a.name # "HookOpenWindow" => P(st, a, Apply(st, a))
 Holder(s, a) == IF a.name = "TransferOwnership" THEN s.owner ELSE s.operator
 OnlyHolder(s, a, r) == r.ok => Holder(s, a) \in a.auth
 Complete(s, a, r) == Holder(s, a) \in a.auth => r.ok
